@@ -71,7 +71,12 @@ func run(c *rig.Ctx) {
 	c.Require("histories", "ops", "block_reads", "power_offs", "power_ons", "writes_while_off", "wave_reads_compared", "wave_writes_ch3_off", "dma_starts_during_histories")
 	nh := c.N(1600, 20000)
 	c.Part("histories", nh, func(i int64, r *rig.Rng) {
-		m := rig.MustNew(rig.BlankROM(0, 0, 0), rig.Opts{})
+		// every fourth history runs with sound output attached (the register file must not care
+		// whether anybody is listening)
+		m := rig.MustNew(rig.BlankROM(0, 0, 0), rig.Opts{AudioOut: i%4 == 3})
+		if i%4 == 3 {
+			c.Count("histories_with_audio_output", 1)
+		}
 		ref := &apuRef{on: true, val: map[uint16]uint8{}}
 		known := map[uint16]bool{} // registers are judged once written or once the power was cycled
 		var hist []string
@@ -183,6 +188,9 @@ func run(c *rig.Ctx) {
 				for t := 0; t < n; t++ {
 					m.Audio.EndMachineCycle()
 					m.Mem.EndMachineCycle()
+					if i%4 == 3 {
+						m.Drain()
+					}
 				}
 				log(fmt.Sprintf("+%d", n))
 				// an OAM DMA transfer now and then: the sound registers are not its business
